@@ -9,7 +9,13 @@ require (
 
 require (
 	github.com/golang-module/carbon/v2 v2.3.8 // indirect
+	github.com/quic-go/qpack v0.6.0 // indirect
+	github.com/quic-go/quic-go v0.60.0 // indirect
 	go.bryk.io/pkg v0.0.0-20250411182835-130bbccf42ad // indirect
+	golang.org/x/crypto v0.52.0 // indirect
+	golang.org/x/net v0.55.0 // indirect
+	golang.org/x/sys v0.45.0 // indirect
+	golang.org/x/text v0.37.0 // indirect
 	gopkg.in/yaml.v2 v2.4.0 // indirect
 )
 
